@@ -22,9 +22,9 @@ import (
 func measured(entry string, input []byte, f func() string) string {
 	var m0, m1 runtime.MemStats
 	runtime.ReadMemStats(&m0)
-	t0 := time.Now()
+	t0 := kfSelfCPU() // processor time, not wall-clock time: the machine may be busy with other things
 	res := guard(f)
-	d := time.Since(t0)
+	d := kfSelfCPU() - t0
 	runtime.ReadMemStats(&m1)
 	olog.ok("C13")
 	if res == "PANIC" {
